@@ -391,7 +391,12 @@ static NewBlockStore new_block_store;
 static_assert(offsetof(NewBlockStore, bits) == sizeof(JitAllocatorBlock), "bit vectors directly behind the header");
 template<uint32_t W> static inline JitAllocatorBlock* new_block_object(uint32_t k) {
   JitAllocatorBlock* b = block_obj(k); block_freed[k] = false;
-  b->_tree_left = nullptr; b->_tree_right = nullptr; b->_list_nodes[0] = nullptr; b->_list_nodes[1] = nullptr;
+#if defined(JENV_REAL_TREE)
+  b->_tree_nodes[0] = 0; b->_tree_nodes[1] = 0;
+#else
+  b->_tree_left = nullptr; b->_tree_right = nullptr;
+#endif
+  b->_list_nodes[0] = nullptr; b->_list_nodes[1] = nullptr;
   b->_used_bit_vector = k == 0 ? BitStore<W>::U0 : BitStore<W>::U1;
   b->_stop_bit_vector = k == 0 ? BitStore<W>::S0 : BitStore<W>::S1;
   return b;
